@@ -40,6 +40,15 @@ class Unsupported(Exception):
     pass
 
 
+class SplitRequest(Exception):
+    """raised (in split mode) at a call of a function with several return sites: the enclosing statement list is
+    lowered once per return site, so that what is returned stays correlated (state copied <-> events not rejected)"""
+
+    def __init__(self, key, n):
+        super().__init__("split")
+        self.key, self.n = key, n
+
+
 # ------------------------------------------------------------------------------------------------ types
 PRIM = ("prim",)
 UNKNOWN = ("unknown",)
@@ -161,6 +170,8 @@ class AV:
     attrs: dict | None = None          # attribute types of a plain (non-pydantic) object built in this call
     display: str | None = None         # 'list' for a list display kept symbolic
     exact: bool = False                # the run-time class is exactly the static one (no subclass possible)
+    dfields: dict | None = None        # static contents of a dict display {"key": AV} (constant propagation)
+    shadow: list | None = None         # static elements of a list display that was given a variable
     alts: list | None = None           # class-hierarchy analysis: [(class, function)] a method call may reach
 
     def is_prim(self):
@@ -288,6 +299,7 @@ class Frame:
         self.yield_handler = None
         self.vars: dict[str, int] = {}
         self.declared_prim: set[str] = set()
+        self.only_return = None
 
 
 class Lowerer:
@@ -297,6 +309,10 @@ class Lowerer:
         self.stack: list = []          # functions being inlined (recursion guard)
         self.ambient: list[str] = []   # uses of ambient sources (random, time, ...)
         self.rec_fn = None             # (function, class of self) of the recursive procedure, if any
+        self.split_mode = False        # lower each statement list once per return site of the calls it makes
+        self.site_choice: dict = {}    # call site -> index of the return statement that is taken
+        self.call_key = None
+        self.splits = 0
         self.global_reads: list[str] = []
 
     # -- emission
@@ -428,7 +444,19 @@ class Lowerer:
         if len(self.stack) > 12:
             raise Unsupported("inlining too deep")
         node = func_ast(fn)
+        ret_nodes = [n for n in ast.walk(node) if isinstance(n, ast.Return)]
+        chosen = None
+        if self.split_mode and len(ret_nodes) >= 2 and self.call_key is not None and not is_generator(fn):
+            key = self.call_key
+            if key in self.site_choice:
+                chosen = ret_nodes[self.site_choice[key]]
+            elif self.splits < 6:
+                raise SplitRequest(key, len(ret_nodes))
+        self.call_key = None
         fr = Frame(fn, self.prog, len(self.stack))
+        fr.only_return = chosen
+        fr.tail_return_only = len(ret_nodes) == 1 and node.body and node.body[-1] is ret_nodes[0] and \
+            not is_generator(fn)
         fr.self_cls = self_cls
         fr.yield_handler = yield_handler
         self.bind_params(fr, fn, node, args, kwargs)
@@ -504,7 +532,9 @@ class Lowerer:
         if name in fr.declared_prim:
             av = AV(ty=PRIM)
         if av.items is not None and av.display == "list":
+            items = av.items
             av = self.materialise(av)
+            av.shadow = items
         if av.items is not None and not av.is_prim():
             # static tuple kept symbolically (only straight-line use is supported)
             fr.locals[name] = AV(items=av.items)
@@ -520,7 +550,7 @@ class Lowerer:
             fr.locals[name] = AV(var=v, ty=PRIM)
         else:
             self.emit(("mov", v, av.var))
-            fr.locals[name] = AV(var=v, ty=av.ty, attrs=av.attrs, exact=av.exact)
+            fr.locals[name] = AV(var=v, ty=av.ty, attrs=av.attrs, exact=av.exact, dfields=av.dfields, shadow=av.shadow)
 
     def call_external(self, fn, args, kwargs) -> AV:
         mod = getattr(fn, "__module__", "") or ""
@@ -563,14 +593,38 @@ class Lowerer:
         status = 0
         for i, s in enumerate(stmts):
             rest = stmts[i + 1:]
-            if isinstance(s, ast.If):
-                j = self.do_if(s, rest)
-                if j is not None:           # the rest was consumed by the branch that continues
-                    status = j
-                    break
-                j = self.last_if_status
-            else:
-                j = self.stmt(s)
+            mark = (len(self.blocks), len(self.blocks[-1]))
+            saved_locals, saved_frame, saved_stack = self.snapshot_locals(), self.frame, list(self.stack)
+            saved_try = getattr(self, "in_try", 0)
+            try:
+                if isinstance(s, ast.If):
+                    j = self.do_if(s, rest)
+                    if j is not None:           # the rest was consumed by the branch that continues
+                        status = j
+                        break
+                    j = self.last_if_status
+                else:
+                    j = self.stmt(s)
+            except SplitRequest as rq:
+                # lower this statement and everything after it once per return site of the call
+                del self.blocks[mark[0]:]
+                del self.blocks[-1][mark[1]:]
+                self.frame, self.stack, self.in_try = saved_frame, saved_stack, saved_try
+                self.splits += 1
+                alts, stats, after = None, [], None
+                for k in range(rq.n):
+                    self.frame.locals = dict(saved_locals)
+                    self.site_choice[rq.key] = k
+                    ir_k, st_k = self.block(stmts[i:])
+                    stats.append(st_k)
+                    after = self.snapshot_locals() if after is None else after
+                    alts = ir_k if alts is None else choice(alts, ir_k)
+                del self.site_choice[rq.key]
+                self.frame.locals = after
+                self.emit(alts)
+                live = [x for x in stats if x != 3]
+                status = 3 if not live else (2 if all(x == 2 for x in live) else max(live))
+                break
             if j in (2, 3):
                 status = j
                 break
@@ -586,7 +640,14 @@ class Lowerer:
         return self.pop(), status
 
     def do_if(self, s: ast.If, rest) -> int | None:
-        self.expr(s.test)
+        t = self.expr(s.test)
+        if self.is_const(t) and isinstance(t.pyobj, bool):
+            ir, j = self.block(s.body if t.pyobj else s.orelse)     # the other branch cannot run
+            self.emit(ir)
+            if j in (2, 3):
+                return j
+            self.last_if_status = j
+            return None
         before = self.snapshot_locals()
         a, ja = self.block(s.body)
         la = self.snapshot_locals()
@@ -664,6 +725,9 @@ class Lowerer:
         if isinstance(s, ast.Pass):
             return 0
         if isinstance(s, ast.Return):
+            if fr.only_return is not None and s is not fr.only_return:
+                self.emit(("abort",))      # this copy of the continuation covers another return site
+                return 3
             av = self.expr(s.value) if s.value is not None else AV(ty=PRIM)
             self.do_return(av)
             return 2
@@ -769,6 +833,9 @@ class Lowerer:
 
     def do_return(self, av: AV):
         fr = self.frame
+        if getattr(fr, "tail_return_only", False):
+            fr.ret = av            # the only return statement, at the very end: hand the value on as it is
+            return
         if fr.ret is None:
             fr.ret = self.fresh_shape(av)
         self.move_into(fr.ret, av)
@@ -778,7 +845,9 @@ class Lowerer:
             return AV(items=[self.fresh_shape(i) for i in av.items], display=av.display)
         if av.var is None and (av.func is not None or av.has_pyobj):
             return AV(var=self.tmp("ret"), ty=PRIM)
-        return AV(var=self.tmp("ret"), ty=PRIM if av.is_prim() else av.ty, attrs=av.attrs)
+        r = AV(var=self.tmp("ret"), ty=PRIM if av.is_prim() else av.ty, attrs=av.attrs)
+        r._assigned = 0
+        return r
 
     def move_into(self, dst: AV, src: AV):
         if dst.items is not None:
@@ -798,6 +867,11 @@ class Lowerer:
             return
         m = self.materialise(src)
         self.emit(("mov", dst.var, m.var))
+        n_assigned = getattr(dst, "_assigned", 1)
+        dst.dfields = src.dfields if n_assigned == 0 else None
+        dst.shadow = (src.shadow if src.shadow is not None else (src.items if src.display == "list" else None)) \
+            if n_assigned == 0 else None
+        dst._assigned = n_assigned + 1
         dst.ty = m.ty if dst.ty == PRIM else join_ty(dst.ty, m.ty)
         if m.attrs is not None:
             dst.attrs = m.attrs if dst.attrs is None else {**dst.attrs, **m.attrs}
@@ -1065,7 +1139,10 @@ class Lowerer:
                 else:
                     self.expr(k)
                     vals.append(self.expr(v))
-            return self.build_container(vals, stars, "dict")
+            out = self.build_container(vals, stars, "dict")
+            if not stars and all(isinstance(k, ast.Constant) and isinstance(k.value, str) for k in e.keys):
+                out.dfields = {k.value: v for k, v in zip(e.keys, vals)}
+            return out
         if isinstance(e, (ast.ListComp, ast.SetComp, ast.GeneratorExp, ast.DictComp)):
             return self.comprehension(e)
         if isinstance(e, ast.BinOp):
@@ -1073,13 +1150,18 @@ class Lowerer:
             return self.binop(l, r, e.op)
         if isinstance(e, ast.UnaryOp):
             v = self.expr(e.operand)
+            if isinstance(e.op, ast.Not) and self.is_const(v) and isinstance(v.pyobj, bool):
+                return AV(ty=PRIM, pyobj=not v.pyobj, has_pyobj=True)
             if isinstance(e.op, ast.Not) or v.is_prim():
                 return AV(ty=PRIM)
             raise Unsupported("unary operator on an object")
         if isinstance(e, ast.Compare):
-            self.expr(e.left)
-            for c in e.comparators:
-                self.expr(c)
+            l = self.expr(e.left)
+            rs = [self.expr(c) for c in e.comparators]
+            if len(rs) == 1 and isinstance(e.ops[0], (ast.Eq, ast.NotEq, ast.Is, ast.IsNot)) and \
+                    self.is_const(l) and self.is_const(rs[0]):
+                eq = l.pyobj == rs[0].pyobj
+                return AV(ty=PRIM, pyobj=eq if isinstance(e.ops[0], (ast.Eq, ast.Is)) else not eq, has_pyobj=True)
             return AV(ty=PRIM)
         if isinstance(e, ast.BoolOp):
             vals = [self.expr(v) for v in e.values]
@@ -1111,6 +1193,8 @@ class Lowerer:
             idx = self.expr(e.slice)
             if base.items is not None and idx.has_pyobj and isinstance(idx.pyobj, int):
                 return base.items[idx.pyobj]
+            if base.dfields is not None and idx.has_pyobj and isinstance(idx.pyobj, str) and idx.pyobj in base.dfields:
+                return base.dfields[idx.pyobj]
             if base.has_pyobj and base.var is None:
                 return AV(ty=PRIM) if self.is_immutable_pyobj(base.pyobj) or isinstance(base.pyobj, type) else \
                     self.load_unknown(self.materialise(base))
@@ -1142,6 +1226,47 @@ class Lowerer:
         if isinstance(e, (ast.Yield, ast.YieldFrom)):
             raise Unsupported("yield used as an expression")
         raise Unsupported(f"expression {type(e).__name__}")
+
+    @staticmethod
+    def is_const(av: AV) -> bool:
+        import enum as _enum
+        return av.has_pyobj and av.var is None and av.func is None and \
+            isinstance(av.pyobj, (bool, int, float, str, type(None), _enum.Enum))
+
+    def static_elements(self, av: AV):
+        if av.items is not None:
+            return av.items
+        return av.shadow
+
+    def try_fold_any(self, e: ast.Call):
+        """any(...) / all(...) over a generator whose iterable has statically known elements and whose element
+        expression folds to a constant for each of them"""
+        if not (isinstance(e.func, ast.Name) and e.func.id in ("any", "all") and e.func.id not in self.frame.locals
+                and len(e.args) == 1 and not e.keywords and isinstance(e.args[0], (ast.GeneratorExp, ast.ListComp))):
+            return None
+        g = e.args[0]
+        if len(g.generators) != 1 or g.generators[0].ifs or not isinstance(g.generators[0].target, ast.Name):
+            return None
+        mark = (len(self.blocks), len(self.blocks[-1]))
+        saved = self.snapshot_locals()
+        it = self.expr(g.generators[0].iter)
+        elems = self.static_elements(it)
+        if elems is None:
+            del self.blocks[mark[0]:]; del self.blocks[-1][mark[1]:]
+            self.frame.locals = saved
+            return None
+        vals = []
+        for el in elems:
+            self.frame.locals[g.generators[0].target.id] = el
+            v = self.expr(g.elt)
+            if not (self.is_const(v) and isinstance(v.pyobj, bool)):
+                del self.blocks[mark[0]:]; del self.blocks[-1][mark[1]:]
+                self.frame.locals = saved
+                return None
+            vals.append(v.pyobj)
+        self.frame.locals = saved
+        res = any(vals) if e.func.id == "any" else all(vals)
+        return AV(ty=PRIM, pyobj=res, has_pyobj=True)
 
     def load_unknown(self, m: AV) -> AV:
         x = self.tmp("item")
@@ -1451,9 +1576,16 @@ class Lowerer:
                 return self.model_copy(selfav, kwargs)
             f = raw.__func__ if isinstance(raw, (classmethod, staticmethod)) else raw
             return self.call_function(f, [selfav] + args, kwargs, self_cls=fr.self_cls)
+        folded = self.try_fold_any(e)
+        if folded is not None:
+            return folded
         callee = self.expr(e.func)
         args, kwargs = self.arguments(e)
-        return self.apply(callee, args, kwargs, e)
+        self.call_key = (id(e), tuple(id(f) for f in self.stack))
+        try:
+            return self.apply(callee, args, kwargs, e)
+        finally:
+            self.call_key = None
 
     def arguments(self, e: ast.Call):
         args = []
@@ -1758,28 +1890,38 @@ def lower_all():
     entries = []
     for cls in component_classes():
         for name, kind in methods_of(cls):
-            prog = Program()
-            lw = Lowerer(prog)
             ent = {"cls": cls.__name__, "module": cls.__module__, "method": name, "kind": kind}
-            try:
-                res, argvars, selfv = lw.lower_method(cls, name, kind)
-                ir = seq(lw.blocks[0])
-                if kind == "reducer":
-                    if res.items is None or len(res.items) != 2:
-                        raise Unsupported("a reducer must return (state, events)")
-                    st = lw.materialise(res.items[0])
-                    ir = seq([ir] + lw.blocks[0][len(lw.blocks[0]):])
-                    ent["result"] = st.var
-                else:
-                    ent["result"] = None
-                ir, taint = choose_kinds(ir, prog)
-                ent.update({"prog": ir, "taint": taint, "nvars": len(prog.varnames), "args": argvars, "self": selfv,
-                            "ambient": sorted(set(lw.ambient)), "global_reads": sorted(set(lw.global_reads)),
-                            "error": None})
-            except Unsupported as ex:
-                ent.update({"prog": None, "error": str(ex)})
-            except RecursionError:
-                ent.update({"prog": None, "error": "recursion limit"})
+            # first the plain lowering; if the checker rejects it, once more with return-site splitting (the statement
+            # lists are then lowered once per return site of the calls they make, which keeps e.g. "the state is a
+            # copy" correlated with "the events hold no rejection")
+            for split in (False, True):
+                prog = Program()
+                lw = Lowerer(prog)
+                lw.split_mode = split
+                try:
+                    res, argvars, selfv = lw.lower_method(cls, name, kind)
+                    ir = seq(lw.blocks[0])
+                    if kind == "reducer":
+                        if res.items is None or len(res.items) != 2:
+                            raise Unsupported("a reducer must return (state, events)")
+                        st = lw.materialise(res.items[0])
+                        ir = seq([ir] + lw.blocks[0][len(lw.blocks[0]):])
+                        ent["result"] = st.var
+                    else:
+                        ent["result"] = None
+                    ir, taint = choose_kinds(ir, prog)
+                    ent.update({"prog": ir, "taint": taint, "nvars": len(prog.varnames), "args": argvars, "self": selfv,
+                                "ambient": sorted(set(lw.ambient)), "global_reads": sorted(set(lw.global_reads)),
+                                "error": None, "split": lw.splits})
+                    if py_check(ir, ["shared"] * len(prog.varnames), prog.varnames, T=taint) is not None:
+                        break
+                except Unsupported as ex:
+                    if "prog" not in ent or ent.get("prog") is None:
+                        ent.update({"prog": None, "error": str(ex)})
+                    break
+                except RecursionError:
+                    ent.update({"prog": None, "error": "recursion limit"})
+                    break
             entries.append(ent)
     return entries
 
